@@ -208,10 +208,10 @@ fn merge(shards: &[Value]) -> BTreeMap<String, Fam> {
     out
 }
 
-fn aggregate(extra: &BTreeMap<String, Vec<Value>>, cfg: &RunCfg) -> Vec<(Failure, Value)> {
+fn aggregate(extra: &BTreeMap<String, Vec<Value>>, cfg: &RunCfg) -> (Vec<(Failure, Value)>, Value) {
     let shards = match extra.get("c09_shard") {
         Some(s) => s,
-        None => return vec![],
+        None => return (vec![], Value::Null),
     };
     let merged = merge(shards);
     let mut out = vec![];
@@ -224,7 +224,17 @@ fn aggregate(extra: &BTreeMap<String, Vec<Value>>, cfg: &RunCfg) -> Vec<(Failure
             ));
         }
     }
-    out
+    let mut summary = serde_json::Map::new();
+    for (name, f) in merged.iter() {
+        summary.insert(
+            name.clone(),
+            json!({"streams": f.n, "accepted_reference": f.acc_ref, "accepted_current": f.acc_cur, "both_accept": f.both,
+                   "correction_bytes_reference": f.corr_ref, "correction_bytes_current": f.corr_cur,
+                   "accept_ratio": if f.acc_ref > 0 { f.acc_cur as f64 / f.acc_ref as f64 } else { 1.0 },
+                   "correction_ratio": if f.corr_ref > 0 { f.corr_cur as f64 / f.corr_ref as f64 } else { 1.0 }}),
+        );
+    }
+    (out, json!({"family_totals": summary, "thresholds": {"accept_ratio_min": 0.99, "correction_ratio_max": 1.03}}))
 }
 
 /// replay = recompute the whole family aggregate for the recorded (seed, tier, nshards)
